@@ -53,11 +53,62 @@ DERIVE = [("-s", lambda s: -s, lambda x: -x),
           ("s+100000", lambda s: s + 100000, lambda x: x + 100000),
           ("2*s", lambda s: 2 * s, lambda x: 2 * x),
           ("abs(s)", abs, abs),
-          ("s.real", lambda s: s.real, lambda x: x),
-          ("s.conjugate()", lambda s: s.conjugate(), lambda x: x),
+          ("s.real", lambda s: s.real, lambda x: x.real),
+          ("s.conjugate()", lambda s: s.conjugate(), lambda x: x.conjugate()),
           ("s//1", lambda s: s // 1, lambda x: x // 1)]
 RAW_ITERABLES = ["list", "tuple", "str", "range", "gen", "dict", "bytes",
                  "onepass", "deque", "iterator"]
+
+
+def strict_same(a, b):
+  """ "Exactly what the list model yields": equal AND of the same type, item
+  by item (1, 1.0 and True are different items; so are 0.0 and -0.0). """
+  if type(a) is not type(b):
+    return False
+  if isinstance(a, (list, tuple)):
+    return len(a) == len(b) and all(strict_same(x, y) for x, y in zip(a, b))
+  if isinstance(a, float):
+    return (a == b and math.copysign(1, a) == math.copysign(1, b)) or \
+      (a != a and b != b)
+  return a == b
+
+
+RAW_ITERATORS = ["listiter", "gen", "islice", "chain", "map", "userclass",
+                 "tupleiter", "list"]
+
+
+class _UserIterator(object):
+  def __init__(self, items):
+    self.items, self.pos = list(items), 0
+
+  def __iter__(self):
+    return self
+
+  def __next__(self):
+    if self.pos >= len(self.items):
+      raise StopIteration
+    self.pos += 1
+    return self.items[self.pos - 1]
+
+
+def make_raw_iterator(kind, n):
+  import itertools
+  items = list(range(500, 500 + n))
+  if kind == "listiter":
+    return iter(list(items)), items
+  if kind == "tupleiter":
+    return iter(tuple(items)), items
+  if kind == "gen":
+    return (v for v in items), items
+  if kind == "islice":
+    return itertools.islice(items + [0, 0], n), items
+  if kind == "chain":
+    return itertools.chain(items[:1], items[1:]), items
+  if kind == "map":
+    return map(lambda v: v, items), items
+  if kind == "userclass":
+    return _UserIterator(items), items
+  return list(items), items          # not an iterator: handed back as it is
 
 
 class _OnePass(object):
@@ -191,7 +242,8 @@ class C03(Property):
                                   (1, "list"), (1, "range"), (1, "gen"),
                                   (2, "odd"), (1, "control"), (1, "mixer"),
                                   (1, "tostream"), (1, "lit_count"),
-                                  (1, "lit_chain"), (1, "periodic_adv")])
+                                  (1, "lit_chain"), (1, "periodic_adv"),
+                                  (1, "consts")])
       if kind == "finite":
         roots.append({"kind": kind, "len": W.choose("len", 13)})
       elif kind == "chain":
@@ -222,7 +274,8 @@ class C03(Property):
                              (5, "copy"), (2, "tee"), (3, "thub"),
                              (4, "hub_use"), (2, "next_it"), (2, "for"),
                              (1, "thub_scalar"), (1, "rewrap"),
-                             (1, "thub_raw"), (2, "derive")])
+                             (1, "thub_raw"), (2, "derive"),
+                             (1, "tee_raw")])
       if odd and op == "filter":
         # items that are None / falsy / not numbers: only filter(None) and
         # filter(bool) make sense on them
@@ -255,6 +308,9 @@ class C03(Property):
         ops.append([op, W.choose("k", 5)])
       elif op == "derive":
         ops.append([op, W.choose("d", len(DERIVE))])
+      elif op == "tee_raw":
+        ops.append([op, W.choose("itkind", len(RAW_ITERATORS)),
+                    W.choose("rawlen", 5), W.span("n", 1, 3)])
       elif op == "thub_raw":
         kinds = [i for i, k in enumerate(RAW_ITERABLES)
                  if has_str or k != "str"]
@@ -412,6 +468,13 @@ class _Ctx(object):
       elif r["kind"] == "odd":
         vals = ODD_VALUES[:r["len"]]
         self.add("stream", Stream(list(vals)), HandleModel(ListSeq(vals)))
+      elif r["kind"] == "consts":
+        # constant streams of equal-but-different scalars, one after the
+        # other: each yields its own value (type, sign of zero included)
+        from fractions import Fraction
+        for v in (1, 1.0, True, Fraction(1), 0, -0.0, 0.0, False):
+          self.add("stream", Stream(v), HandleModel(
+            FnSeq(lambda i, v=v: v, None)))
       elif r["kind"] == "control":
         # Stream subclasses inherit every method of the statement
         from audiolazy import lazy_stream
@@ -422,7 +485,9 @@ class _Ctx(object):
         vals = list(range(60, 60 + r["len"]))
         mix = lazy_stream.Streamix()
         mix.add(2, list(vals))
-        self.add("stream", mix, HandleModel(ListSeq([0, 0] + vals)))
+        # (the default zero of a mixer is the float 0.0)
+        self.add("stream", mix, HandleModel(ListSeq(
+          [0.0, 0.0] + [0.0 + v for v in vals])))
       elif r["kind"] == "tostream":
         from audiolazy import lazy_stream
         vals = list(range(50, 50 + r["len"]))
@@ -494,6 +559,10 @@ class _Ctx(object):
       return base + 1 + r
     if cat == "float":
       k = r % (base + 3)
+      if r == 5:
+        return 0.49999999999999994    # the largest float below one half
+      if r == 6:
+        return k + 0.5000000000000001 if k < 4 else k + 0.6
       v = k + FRACS[r % 4]
       return -v if r == 7 else v
     if cat == "fraction":      # a real count that is not a float instance
@@ -511,11 +580,15 @@ class _Ctx(object):
     if isinstance(n, float):
       if math.isinf(n):
         return None if n > 0 else 0
-      return int(math.floor(n + 0.5)) if n > 0 else 0
+      # nearest integer, computed exactly (n + 0.5 in floating point is
+      # already wrong for the largest float below one half)
+      from fractions import Fraction
+      return int(math.floor(Fraction(n) + Fraction(1, 2))) if n > 0 else 0
     return max(0, n)
 
   @staticmethod
   def eff_cut(n):
+    # (round() of a float is exact: round-half-even on the true value)
     return max(0, int(round(n)))
 
   def call(self, what, fn):
@@ -539,7 +612,8 @@ class _Ctx(object):
       signal.alarm(0)
 
   def expect(self, what, got, want, text):
-    if got[0] != want[0] or (got[0] == "ok" and got[1] != want[1]) or \
+    if got[0] != want[0] or \
+       (got[0] == "ok" and not strict_same(got[1], want[1])) or \
        (got[0] == "raise" and got[1] != want[1]):
       tag = what + (":value" if got[0] == want[0] == "ok" else
                     ":exception:" + str(got[1]) if got[0] == "raise" else
@@ -611,6 +685,27 @@ class _Ctx(object):
       nh = self.add("hub", got[1], HandleModel(ListSeq(items)), uses=op[3])
       self.events.append("thub(<%s %d>, %d) -> h%d" % (rk, len(items), op[3],
                                                        nh.hid))
+      return
+    if name == "tee_raw":
+      # lazy_itertools.tee of something that is not a Stream: n independent
+      # Streams for any iterator, n times the object itself otherwise
+      rk = RAW_ITERATORS[op[1] % len(RAW_ITERATORS)]
+      raw, items = make_raw_iterator(rk, op[2])
+      got = self.call(name, lambda: self.p.tee(raw, op[3]))
+      if rk == "list":
+        if got[0] != "ok" or len(got[1]) != op[3] or \
+           any(x is not raw for x in got[1]):
+          raise _Mismatch("tee:return", "tee(<list>, %d) gave %r" % (op[3],
+                                                                    got))
+        return
+      if got[0] != "ok" or len(got[1]) != op[3] or \
+         not all(isinstance(x, self.p.Stream) for x in got[1]):
+        raise _Mismatch("tee:return", "tee(<%s of %d items>, %d) gave %r"
+                        % (rk, len(items), op[3], got))
+      ids = [self.add("stream", x, HandleModel(ListSeq(items))).hid
+             for x in got[1]]
+      self.events.append("tee(<%s %d>, %d) -> %r" % (rk, len(items), op[3],
+                                                    ids))
       return
     if name == "hub_use":
       h = self.pick("hub")
